@@ -28,6 +28,16 @@ newer / as old as / older than it, or left from an earlier version of the FASTA 
 length) and older than / as old as it.  Whatever the state, the outputs must be those of the run without cache:
 a cache is either valid for this FASTA or has to be rebuilt.  Only here the log lines that print an absolute path
 (the warnings about the cache files) are left out of the comparison.
+
+"Earlier runs in the same process" cuts both ways (check_sessions): a program that calls the command several times (a
+test-suite, a wrapper looping over samples) does not clean up between the calls.  Sessions are sequences of invocations
+in one process - different inputs, with and without --output, with and without --write-log, other --log-level, other
+output formats, every invocation into a directory of its own - in which NOTHING is reset between the invocations (the
+other in-process checks of this module remove the logging handlers after each run, a session does not).  After EACH
+invocation (1) every file of every earlier invocation of the session must still be, byte for byte, what it was when that
+invocation finished (a finished run's outputs are a function of its inputs, not of what the process does next), and
+(2) the files of the invocation itself, its exit status and (without --output) its STDOUT must be those of the same
+command in a fresh interpreter writing into an empty directory.
 """
 
 import gc
@@ -837,6 +847,177 @@ def check_orders(cases, col, quick):
                 compare(works[i], refs[i][0], refs[i][1], cfg, col)
 
 
+# ------------------------------------------------------------------ sessions: invocations in ONE process, nothing reset in between
+
+SESSION_CFGS = {
+    # name: (input format, output format | None = no --output: STR format to STDOUT, further options, in words)
+    "L": ("agp", "agp", [], "--output x.agp, log file written (default)"),
+    "W": ("agp", "agp", ["--no-write-log"], "--output x.agp --no-write-log"),
+    "N": ("agp", None, [], "no --output (assemblies to STDOUT)"),
+    "Lfa": ("fa", "fa", [], "FASTA input, --output x.fa, log file written"),
+    "D": ("agp", "agp", ["--log-level", "DEBUG"], "--output x.agp --log-level DEBUG, log file written"),
+    "E": ("agp", "tpf", ["--log-level", "ERROR", "--write-log"], "--output x.tpf --log-level ERROR, log file written"),
+    "Wt": ("agp", "tpf", ["-W"], "--output x.tpf -W"),
+    "Nq": ("agp", None, ["--log-level", "WARNING"], "no --output, --log-level WARNING"),
+}
+
+
+def reset_logging(level=None):
+    import logging
+
+    root = logging.getLogger()
+    for h in list(root.handlers):
+        try:
+            h.close()
+        finally:
+            root.removeHandler(h)
+    if level is not None:
+        root.setLevel(level)
+
+
+def session_invoke(args, cwd):
+    """
+    One invocation of the pretext-to-asm command in this process.  Nothing of the process state is touched afterwards:
+    the next invocation finds the logging configuration, module globals and caches as this one left them.
+    Returns (exit status, STDOUT bytes, exception text).
+    """
+    from click.testing import CliRunner
+    from tola.assembly.scripts.pretext_to_asm import cli
+
+    try:
+        runner = CliRunner(mix_stderr=False)
+    except TypeError:  # click >= 8.2: always separate
+        runner = CliRunner()
+    old = os.getcwd()
+    os.chdir(cwd)
+    try:
+        res = runner.invoke(cli, [str(a) for a in args])
+    finally:
+        os.chdir(old)
+    exc = "" if res.exception is None or isinstance(res.exception, SystemExit) else repr(res.exception)
+    return res.exit_code, res.stdout_bytes, exc
+
+
+def session_args(ins, cfg_name, out_dir):
+    in_fmt, out_fmt, extra, _ = SESSION_CFGS[cfg_name]
+    args = ["-a", ins[in_fmt], "-p", ins["pretext"]]
+    if out_fmt:
+        args += ["-o", pathlib.Path(out_dir) / f"{OUT}.{out_fmt}"]
+    return args + extra
+
+
+def changed_file(before, now):
+    """in words: how the files of a finished invocation differ from what they were when it finished"""
+    for name in sorted(set(before) | set(now)):
+        a, b = before.get(name), now.get(name)
+        if a == b:
+            continue
+        if a is None:
+            return f"a new file {name} ({len(b)} bytes) has appeared in its output directory"
+        if b is None:
+            return f"its file {name} has disappeared"
+        if b.startswith(a):
+            return f"{len(b) - len(a)} bytes have been appended to its {name} (which had {len(a)} bytes), beginning {b[len(a):][:160]!r}"
+        return f"its {name} has been rewritten ({len(a)} -> {len(b)} bytes): {diff_snapshots({name: a}, {name: b})}"
+    return None
+
+
+class Sessions:
+    """the cases of the sessions on disk, with the reference runs (fresh interpreter, empty directory), made once each"""
+
+    def __init__(self, cases, root):
+        self.cases = cases
+        self.root = pathlib.Path(root)
+        self.ins = []
+        for i, case in enumerate(cases):
+            d = self.root / f"in{i}"
+            d.mkdir()
+            self.ins.append(g.write_inputs(case, d, formats=("fa", "agp")))
+        self.refs = {}
+        self.n = 0
+
+    def reference(self, ci, cfg_name):
+        if (ci, cfg_name) not in self.refs:
+            if SESSION_CFGS[cfg_name][0] == "fa":
+                build_cache(self.ins[ci]["fa"])  # every run of the session finds the same, valid index cache
+            self.n += 1
+            d = self.root / f"ref{self.n}"
+            d.mkdir()
+            code, out, _ = g.run_subprocess(P2A, session_args(self.ins[ci], cfg_name, d), cwd=self.root, hashseed=0)
+            self.refs[ci, cfg_name] = (code, g.snapshot(d), out)
+            shutil.rmtree(d, ignore_errors=True)
+        return self.refs[ci, cfg_name]
+
+    def run(self, steps, col):
+        """steps: [[case number, name in SESSION_CFGS], ...]; returns after the first failure"""
+        import logging
+
+        inp = {"kind": "session", "cases": self.cases, "steps": [list(s) for s in steps]}
+        self.n += 1
+        sdir = self.root / f"session{self.n}"
+        sdir.mkdir()
+        level = logging.getLogger().level
+        reset_logging()
+        done = []
+        said = lambda k: f"invocation {k + 1} ({SESSION_CFGS[steps[k][1]][3]}, case {self.cases[steps[k][0]]['name']})"  # noqa: E731
+        head = f"session {[list(s) for s in steps]} of consecutive pretext-to-asm invocations in one process, each into a directory of its own: "
+        try:
+            for k, (ci, cfg_name) in enumerate(steps):
+                ref_code, ref_snap, ref_out = self.reference(ci, cfg_name)
+                out_dir = sdir / f"run{k + 1}"
+                out_dir.mkdir()
+                code, out, exc = session_invoke(session_args(self.ins[ci], cfg_name, out_dir), self.root)
+                col.case(("session", tuple(map(tuple, steps[: k + 1]))))
+                for j, j_dir, j_snap in done:
+                    if how := changed_file(j_snap, g.snapshot(j_dir)):
+                        col.fail(
+                            head + f"after {said(k)} the outputs of {said(j)} are no longer what they were when it finished: {how} - the "
+                            "files a run leaves depend on what the process did afterwards, not only on its input files",
+                            inp,
+                        )
+                        return
+                snap = g.snapshot(out_dir)
+                d = None
+                if code != ref_code:
+                    d = f"exit status {code} {exc} instead of {ref_code}"
+                elif (d := diff_snapshots(ref_snap, snap)) is None and SESSION_CFGS[cfg_name][1] is None and out != ref_out:
+                    d = "STDOUT: " + str(diff_snapshots({"STDOUT": ref_out}, {"STDOUT": out}))
+                if d:
+                    col.fail(
+                        head + f"{said(k)} does not do what the same command does in a fresh interpreter into an empty directory: {d} - the "
+                        "outputs depend on the earlier invocations in the process",
+                        inp,
+                    )
+                    return
+                done.append((k, out_dir, snap))
+        finally:
+            reset_logging(level)
+            shutil.rmtree(sdir, ignore_errors=True)
+
+
+def session_plans(n_cases, quick, rng):
+    if quick:
+        # every ordered pair over {own log, no log, no --output}, the second invocation on other inputs; two longer ones
+        plans = [[[0, x], [1, y]] for x in ("L", "W", "N") for y in ("L", "W", "N")]
+        plans.append([[0, "L"], [1, "N"], [0, "D"], [1, "W"], [1, "L"], [0, "N"]])
+        plans.append([[1, "W"], [0, "L"], [0, "W"], [1, "L"], [0, "N"], [1, "N"], [0, "L"]])
+        return plans
+    names = list(SESSION_CFGS)
+    plans = [[[a, x], [b, y]] for x in names for y in names for a, b in ((0, 1), (1, 0), (2, 2))]
+    for _ in range(120):
+        plans.append([[rng.randrange(n_cases), rng.choice(names)] for _ in range(rng.randint(3, 7))])
+    return plans
+
+
+def check_sessions(cases, plans, col):
+    with tempfile.TemporaryDirectory() as root:
+        sessions = Sessions(cases, root)
+        for steps in plans:
+            if col.full:
+                return
+            sessions.run(steps, col)
+
+
 def check_asm_format(case, col, quick):
     with tempfile.TemporaryDirectory() as root:
         root = pathlib.Path(root)
@@ -945,6 +1126,8 @@ def replay(inp):
                 for k in range(1, 7):
                     if not col.failures:
                         compare(work, inp["ref"], ref, dict(cfg, pre=cfg["pre"] + k), col)
+    elif inp["kind"] == "session":
+        check_sessions(inp["cases"], [inp["steps"]], col)
     elif inp["kind"] == "asm-format":
         check_asm_format(inp["case"], col, True)
     elif inp["kind"] == "specimen":
@@ -970,6 +1153,11 @@ def run(tier, seed, **opts):
         "equally old, older / from an earlier version of the FASTA and older, equally old) compared with the run without cache, and run "
         "again with the same --output (default --clobber) after runs on the same and on other inputs or onto files of unrelated content "
         "named like the outputs, compared with the run into an empty directory (all files, the .log included); asm-format -o likewise; "
+        "sessions of consecutive invocations in one process with nothing reset in between (with / without --output, with / without "
+        "--write-log, other --log-level, other inputs and formats, each into its own directory): after each invocation all files of all "
+        "earlier invocations byte-identical to what they were when those finished, and the invocation's own files / exit status / "
+        "STDOUT those of a fresh interpreter (quick: all ordered pairs over 3 kinds of invocation + 2 sessions of 6-7; thorough: all "
+        "ordered pairs over 8 kinds x 3 pairs of cases + 120 seeded random sessions of 3-7); "
         "non-trivial = distinct (case, run configuration) compared with the reference run"
     )
     cases = [g.case_cut(), g.case_haps(), g.case_multi()]
@@ -986,6 +1174,9 @@ def run(tier, seed, **opts):
     for case in cases[:2] if quick else cases[:6]:
         if not col.full:
             check_asm_format(case, col, quick)
+    plans = session_plans(3, quick, rng)
+    if not col.full:
+        check_sessions(cases[:3], plans, col)
     ties = tie_family(quick, rng)
     reps, n_pre = (12, 1) if quick else (40, 3)
     if not col.full:
@@ -1006,6 +1197,7 @@ def run(tier, seed, **opts):
         + ("14 cache states + 2 as subprocess (first case) or 8 cache states, " if quick else "36 cache states x FASTA / AGP / TPF output + 8 as subprocess, ")
         + ("7 + 4 (first case) or 4 re-runs into a used output directory); 3 cases in " if quick else "up to 11 + 3 re-runs into a used output directory for each of FASTA / AGP / TPF output); 3 cases in ")
         + ("6" if quick else "6") + f" orders in one process; asm-format 3-4 conversions x 4 runs; {n_spec} specimens x 2 hash seeds; "
+        f"{len(plans)} sessions of 2-7 unreset in-process invocations; "
         f"{len(ties)} tie maps x (1 reference + {n_pre} pre-used fresh interpreters + {reps} in-process runs in shuffled rounds with churn / gc modes)",
         exhaustive=False,
     )
